@@ -836,7 +836,7 @@ class PubKeyV4(PubKey):
         # b) version number = 4 (1 octet);
         fp.update(b'\x04')
         # c) timestamp of key creation (4 octets);
-        fp.update(self.int_to_bytes(calendar.timegm(self.created.timetuple()), 4))
+        fp.update(self.int_to_bytes(calendar.timegm(self.created.utctimetuple()), 4))
         # d) algorithm (1 octet): 17 = DSA (example);
         fp.update(self.int_to_bytes(self.pkalg))
         # e) Algorithm-specific fields.
